@@ -236,6 +236,9 @@ func (w *world) find(at int, id int32, userPrefix []byte, opts int64) ([]pair, e
 			return nil, errors.New("unexpected iterator item types")
 		}
 		out = append(out, pair{ints(k), ints(v)})
+		// "Find, then Get inside the loop": point reads through the same DAO while the iterator is open
+		_ = w.L[at].d.GetStorageItem(id+1, []byte{0xee, byte(len(out))})
+		_ = w.L[at].d.GetStorageItem(id, append([]byte{0xee}, k...))
 	}
 	return out, nil
 }
@@ -407,6 +410,9 @@ func (w *world) exec(o Op) (ok bool) {
 			r2.Prefix = userPrefix
 			for kv := range w.L[o.At].d.SeekAsync(context.Background(), id, r2) {
 				out = append(out, pair{ints(kv.Key), ints(kv.Value)})
+				// what a contract does while it iterates: point reads through the same DAO (they change no state)
+				_ = w.L[o.At].d.GetStorageItem(id+1, []byte{0xee, byte(len(out))})
+				_ = w.L[o.At].d.GetStorageItem(id, append([]byte{0xee}, kv.Key...))
 			}
 		case "Find", "FindRP":
 			// System.Storage.Find: no start point, full depth; options RemovePrefix / Backwards
